@@ -115,6 +115,24 @@ def structural(name, data, kind):
         yield ("stream+zeros512", data + b"\0" * 512, name)
         yield ("stream+noise", data + bytes(range(7, 71)), name)
         yield ("stream+magic", data + data[:6], name)
+        # size fields of the first header holding absurd values (what a reader might size a buffer by before any check sum
+        # is looked at): xz block flags announcing compressed / uncompressed sizes followed by a maximal variable-length
+        # integer; lz4 frame descriptor announcing a content size of 2^64-1
+        if kind.endswith(".xz") and len(data) > 40:
+            for flags in (0x80, 0x40, 0xC0):
+                for run in (b"\xff" * 8 + b"\x7f", b"\xff" * 9, b"\x80" * 8 + b"\x01", b"\xff\xff\xff\xff\x0f"):
+                    b = bytearray(data)
+                    b[13] |= flags
+                    b[14:14 + len(run)] = run
+                    if flags == 0xC0:
+                        b[14 + len(run):14 + 2 * len(run)] = run
+                    yield ("xz-blocksizes-%02x-%d" % (flags, len(run)), bytes(b), name)
+        if kind.endswith(".lz4") and len(data) > 20:
+            for size in (b"\xff" * 8, b"\xff" * 7 + b"\x7f", b"\0" * 7 + b"\x40"):
+                b = bytearray(data)
+                b[4] |= 0x08
+                b[6:6] = size
+                yield ("lz4-contentsize-%s" % size[-1:].hex(), bytes(b), name)
     elif kind.endswith(".tar"):
         yield ("tar+noise", data + bytes(range(256)) * 2, name)
         yield ("tar+tar", data + data, name)
